@@ -84,6 +84,9 @@ var ErrInjected = errors.New("injected read fault")
 // returns ErrInjected. Transient: after the first error it delivers Resume more bytes and then fails
 // forever.
 type FaultReader struct {
+	// WithData makes the (first occurrence of each) failure accompany the last bytes delivered before it:
+	// Read returns (n > 0, err) instead of (n, nil) followed by (0, err).
+	WithData  bool
 	inner     *ChunkReader
 	data      []byte
 	failAt    int
@@ -126,6 +129,15 @@ func (f *FaultReader) Read(p []byte) (int, error) {
 	f.delivered += n
 	if err == io.EOF && f.delivered >= limit {
 		err = nil
+	}
+	if f.WithData && n > 0 && f.delivered >= limit && err == nil {
+		if !f.failed {
+			f.failed = true
+		} else {
+			f.resume = 0
+		}
+		f.Faults++
+		return n, ErrInjected
 	}
 	return n, err
 }
